@@ -75,7 +75,8 @@ def main(argv=None):
     jobs = int(os.environ.get('VERIF_JOBS', str(os.cpu_count() or 4)))
     t0 = time.time()
     os.makedirs(os.path.join(HERE, 'evidence'), exist_ok=True)
-    os.makedirs(os.path.join(HERE, 'replays'), exist_ok=True)
+    rdir = os.environ.get('VERIF_REPLAY_DIR', 'replays')
+    os.makedirs(os.path.join(HERE, rdir), exist_ok=True)
     tmpd = tempfile.mkdtemp(prefix='verif_' + pid + '_')
 
     if a.replay:
@@ -199,7 +200,7 @@ def main(argv=None):
         fl = r['failure']
         spec = fl.get('spec')
         h = spec_hash(spec)
-        path = os.path.join('replays', '%s-%s-%s.json' % (pid, r['args'][1], h))
+        path = os.path.join(rdir, '%s-%s-%s.json' % (pid, r['args'][1], h))
         if path in reported:
             continue
         reported.add(path)
